@@ -117,6 +117,15 @@ def check_tree(spec, probe, alias, level: str):
         own = False
     if own != o_this(spec):
         return f'own-field check {"passes" if own else "fails"} but the predicate does{"" if o_this(spec) else " not"} reference the current message'
+    # a derived tree answers for itself: replace the current message by @DERIVED and query again
+    from hpl.ast.expressions import HplVarReference
+    dname = sp.SymName(z3.IntVal(sp._const_id('DERIVED')), 'DERIVED') if isinstance(probe, sp.SymName) else 'DERIVED'
+    pred_d = pred.replace_self_reference(HplVarReference(sp.SymTok(dname) if isinstance(dname, sp.SymName) else '@DERIVED'))
+    want_d = list(fv) + ([dname] if o_this(spec) else [])
+    if not same_set(pred_d.external_references(), want_d):
+        return f'after replace_self_reference the derived predicate reports external_references() = {sorted(map(str, pred_d.external_references()))}, expected {sorted(map(str, want_d))}'
+    if bool(pred_d.contains_self_reference()):
+        return 'after replace_self_reference the derived predicate still reports a self reference'
     if level == 'pred':
         return None
     ev = HplSimpleEvent.publish('t', predicate=HplPredicateExpression(gen.build(spec)), alias=alias)
